@@ -34,6 +34,11 @@ func (valdec ptrDecoder) Decode(dec *Decoder, p interface{}, tag byte) {
 		if *ptr != nil {
 			*ptr = nil
 		}
+	case TagRef:
+		// the pointer takes the referenced object itself where the types allow
+		// it (ptrCopy), so that shared and cyclic pointers keep their identity;
+		// allocating a new element here would decode a copy of the object
+		dec.ReadReference(p)
 	default:
 		if *ptr == nil {
 			*ptr = valdec.et.UnsafeNew()
